@@ -148,6 +148,41 @@ def run(m, rep, tier):
     if not [f for f in adj if has(f, -1)]:
         d5.violation('dlist:removal', 'no function decrements the element count although elements can be removed', 'src/dlist.c', {})
 
+    # ---- D11: size - k only where size >= k ---------------------------------------------------
+    d11 = rep.rule('D11', 'a value computed as size - k (a pair / half count, a loop bound) is computed only where size >= k is known', floor=1)
+    n11 = 0
+    for f in m.all_plain_functions():
+        if not (f.file or '').endswith('dlist.c'):
+            continue
+        pv = Prover(f)
+        is_size = listrules.field_addr_pred(m, f, DL, 'size')
+        for i in f.all_insts():
+            if i.op not in ('add', 'sub'):
+                continue
+            base, step = i.o[0], None
+            k = const_int(i.o[1])
+            if k is None:
+                continue
+            if i.op == 'add' and k >= (1 << 63):
+                k = (1 << 64) - k
+            elif i.op == 'add':
+                continue
+            ld = f.get(base) if isinstance(base, str) else None
+            if ld is None or ld.op != 'load' or not is_size(ld.o[0]) or k < 1:
+                continue
+            # the bookkeeping decrement itself (stored back into size) belongs to D5
+            if any(u.op == 'store' and is_size(u.o[1]) for u in f.users(i.ref)):
+                continue
+            n11 += 1
+            site = '%s:size-%d@%d' % (f.name, k, i.line or 0)
+            if pv.prove_at(('ule', '#%d' % k, ld.ref), i):
+                d11.ok(site, 'under size >= %d' % k, i.loc())
+            else:
+                d11.violation(site, 'size - %d is computed at %s without knowing that the list has %d element(s): for an empty list the unsigned '
+                              'difference wraps to a huge count (a loop driven by it never ends / walks off the list)' % (k, i.loc(), k), i.loc(), {})
+    if n11 == 0:
+        d11.ok('dlist', 'no size - k value other than the bookkeeping decrement in dlist.c')
+
     # ---- D10: (function pointer, context) pairing ---------------------------------------------
     from .util import check_callback_context
     _cb = rep.rule('D10', 'every call through a caller-supplied function pointer passes the context supplied with it', floor=1)
